@@ -26,6 +26,8 @@ pub enum AnyGT<T: Float> {
     LogX,
     SqrtDom,
     Box1,
+    /// standard normal (any dimension) whose log-density is NaN in the pocket 1.45 < x_k < 1.55
+    NanPocket,
 }
 
 impl<T, B> GradientTarget<T, B> for AnyGT<T>
@@ -50,6 +52,11 @@ where
                 let inside = p.clone().abs().floor().clamp(0.0, 1.0).neg().add_scalar(1.0);
                 (p.powi_scalar(2).mul_scalar(-0.5) + inside.log()).sum()
             }
+            AnyGT::NanPocket => {
+                // sqrt of a negative number inside the pocket, times zero: NaN inside, 0 outside
+                let pocket = p.clone().sub_scalar(1.5).abs().sub_scalar(0.05).sqrt().mul_scalar(0.0);
+                (p.powi_scalar(2).mul_scalar(-0.5) + pocket).sum()
+            }
         }
     }
 }
@@ -72,6 +79,11 @@ pub fn gt_ref<T: Float>(t: &AnyGT<T>) -> RefT {
         AnyGT::LogX => ref_of::<T>(&AnyTarget::LogX),
         AnyGT::SqrtDom => ref_of::<T>(&AnyTarget::SqrtDom),
         AnyGT::Box1 => ref_of::<T>(&AnyTarget::Box1),
+        AnyGT::NanPocket => RefT {
+            kind: "NanPocket".into(),
+            f: Arc::new(|x| x.iter().map(|v| if (v - 1.5).abs() < 0.05 { f64::NAN } else { -0.5 * v * v }).sum()),
+            g: Arc::new(|x| x.iter().map(|v| -v).collect()),
+        },
     }
 }
 
